@@ -60,7 +60,7 @@ func init() {
 		registry["C10"] = append(registry["C10"], Suite{Name: sg.name, NewMachine: sg.mk, Gen: genPersist(sg, "C10"),
 			Monitors: []Monitor{monitorPersist(sg, "C10")}, OpName: sg.opName,
 			Rule: "reachable Redis-backed state, export, import under new keys into a dirty target, Equals, paired queries, further common updates", Quick: 40, Thorough: 1000})
-		registry["C09"] = append(registry["C09"], Suite{Name: sg.name, NewMachine: sg.mk, Gen: genC09(sg),
+		registry["C09"] = append(registry["C09"], Suite{Name: sg.name, NewMachine: sg.mk, Gen: genC09(sg), OMonitors: []OMonitor{ownUpdateMonitor(sg)},
 			Monitors: []Monitor{monitorPersist(sg, "C09")}, OpName: sg.opName,
 			Rule: "history through the creating handle, re-attachment by metadata key at a random point (also after an import under new keys), operations through either handle, paired queries after each", Quick: 60, Thorough: 1500})
 		registry["C17"] = append(registry["C17"], Suite{Name: sg.name, NewMachine: sg.mk, Gen: genC17(sg),
